@@ -7,7 +7,9 @@ RULE = ("with the RNG tap (feature verif-hooks): scripted tapes -> outputs must 
         "match (32 for unseeded keygen and hedged ML-DSA signing, 64 for randomized Dilithium signing, 0 for seeded keygen / deterministic signing / "
         "verification); recording mode with the real RNG -> the request log must be exactly [32] / [64] / [] and feeding the recorded bytes to the "
         "independent Python reference must reproduce the output (randomness enters only as the specification's seed / rnd / rho''); repeated calls: "
-        "pairwise distinct draws and outputs, identical deterministic signatures. Non-trivial = every distinct call.")
+        "pairwise distinct draws and outputs, identical deterministic signatures; the same across 2..16 fresh OS threads started on a barrier (outputs must "
+        "be pairwise distinct across threads too); seeded generation through the API wrappers with all-00 / all-FF / single-bit seeds draws nothing and "
+        "equals KeyGen(seed). Non-trivial = every distinct call.")
 ASSUMPTIONS = ["'fresh from an OS-seeded CSPRNG' is a property of rand 0.7.3 / the OS (random_bytes -> rand::thread_rng().try_fill_bytes), outside any model; "
                "the distinctness statistics are supporting evidence, not proof"]
 TIMEOUT = {"quick": 1500, "thorough": 3400}
@@ -32,6 +34,10 @@ def gen(tier, rng):
             out.append(Case("ml_prehash_sign", API_OF[cp], [sk, best, b"c", 1, 1, tape], ["in_domain", "scripted", "api", "crate-only"], aux=("rest2", 68)))
             out.append(Case("ml_sign", API_OF[cp], [sk, best, b"c", 0, tape], ["in_domain", "scripted", "api", "crate-only"], aux=("rest2", 100)))
             out.append(Case("ml_sign", API_OF[cp], [sk, best, bytes(256), 1, tape], ["in_domain", "scripted", "api", "ctx-too-long"], aux=("rest2", 100)))
+        # seeded generation through the API wrapper draws nothing, whatever the seed looks like (no sentinel values)
+        specials = [bytes(32), bytes([255] * 32), bytes([0] * 31 + [1]), bytes([128] + [0] * 31), bytes(rng.randrange(256) for _ in range(32))]
+        for sd in specials:
+            out.append(Case("kp_generate_log", API_OF[cp], [sd], ["in_domain", "seeded", "api", "special-seed", "crate-only"], aux=("seeded-api", sd, cp)))
     return out
 
 
@@ -41,6 +47,14 @@ def nontrivial(c, out):
 
 def oracle(c, outs):
     if c.aux is None:
+        return None
+    if c.aux[0] == "seeded-api":
+        _, sd, cp = c.aux
+        if outs[2] != 0:
+            return "seeded Keypair::generate (%s) made %d RNG request(s) for seed %s" % (c.copy, outs[2], sd.hex())
+        epk, esk = pyref.keygen(Par(cp), sd)
+        if (outs[1], outs[0]) != (epk, esk):
+            return "seeded Keypair::generate (%s) is not KeyGen(seed) for seed %s" % (c.copy, sd.hex())
         return None
     kind, exp = c.aux
     got = outs[2] if kind in ("rest", "rest2") else outs[1]
@@ -85,6 +99,17 @@ def extra(rep, cov, tier, rng):
         for r in kl:
             for b in r[3]: hist[b] += 1
         cov.setdefault("seed_byte_histogram_minmax", {})[cp + ("/checked" if dev else "/release")] = [min(hist), max(hist)]
+    # freshness across OS threads (fresh threads, barrier start): all outputs pairwise distinct
+    tplan = [(2, 6), (8, 4)] if tier == "quick" else [(2, 40), (4, 40), (16, 40)]
+    for cp in ALL:
+        pk, sk = keygen(cp, bytes(rng.randrange(256) for _ in range(32)))
+        for threads, per in tplan:
+            r = crate([("rng_threads", cp, [threads, per, sk])])[0]
+            n += 2 * threads * per
+            if r is None or r[0] != r[1] or r[2] != r[3]:
+                rep.violation("randomness repeats across threads (%s): %s unseeded key pairs of which %s distinct, %s randomized signatures of which %s distinct "
+                              "(%d threads x %d calls)" % ((cp,) + tuple(r or ["?"] * 4) + (threads, per)),
+                              {"cases": [{"fn": "rng_threads", "copy": cp, "args": [str(threads), str(per), "x" + sk.hex()]}]}, True)
     import subprocess
     rc = subprocess.run("grep -rn 'thread_rng\\|try_fill_bytes' /repo/src --include=*.rs | grep -v verif_hooks | wc -l", shell=True, stdout=subprocess.PIPE)
     cov["advisory_rng_call_sites"] = rc.stdout.decode().strip()
